@@ -140,9 +140,10 @@ Theorem switched_off_only_when_blamed s e i :
   | HRead rs => nth_error rs i = Some RClosed
   | HWrite os => exists o, nth_error os i = Some o /\ cancels o = true
   | HBatch _ => False
+  | HReconnect => False
   end.
 Proof.
-  intros Ha Hd. destruct e as [rs|os|k]; cbn [hstep] in Hd.
+  intros Ha Hd. destruct e as [rs|os|k|]; cbn [hstep] in Hd.
   - cbn [fst h_alive] in Hd. rewrite kill_nth, Ha in Hd. cbn [andb Nat.add] in Hd.
     apply negb_false_iff in Hd. apply existsb_eqb_in in Hd. apply closed_at_in in Hd.
     rewrite Nat.sub_0_r in Hd. exact (proj2 Hd).
@@ -152,7 +153,15 @@ Proof.
     apply nth_error_combine in Hn. exists o. split; [exact (proj2 Hn)|exact Hc].
   - destruct (batch k s) as [s' ns] eqn:Eb. cbn [fst] in Hd.
     replace s' with (fst (batch k s)) in Hd by (rewrite Eb; reflexivity). rewrite batch_alive in Hd. congruence.
+  - cbn [fst h_alive] in Hd.
+    assert (Hall : forall (l : list bool) j, nth j l false = true -> nth j (map (fun _ => true) l) false = true).
+    { induction l as [|b l IH]; intros j Hj; [destruct j; discriminate|]. destruct j; [reflexivity|cbn; apply IH; exact Hj]. }
+    rewrite (Hall _ _ Ha) in Hd. discriminate.
 Qed.
+
+(* after a reconnect every endpoint is tried again *)
+Theorem reconnect_revives_all s : forallb (fun b => b) (h_alive (fst (hstep s HReconnect))) = true.
+Proof. cbn [hstep fst h_alive]. induction (h_alive s) as [|b l IH]; [reflexivity|exact IH]. Qed.
 
 (* ---------------------------------------------------------------- nonces *)
 
@@ -208,10 +217,11 @@ Proof.
   cbn [hrun].
   assert (H1 : let '(s1, o) := hstep s e in
                consecutive (h_nonce s) (nonces_of o) /\ h_nonce s1 = h_nonce s + Z.of_nat (length (nonces_of o))).
-  { destruct e as [rs|os|k]; cbn [hstep].
+  { destruct e as [rs|os|k|]; cbn [hstep].
     - cbn. split; [exact I|lia].
     - apply write1_nonce.
-    - pose proof (batch_nonce k s) as Hb. destruct (batch k s) as [s' ns]. exact Hb. }
+    - pose proof (batch_nonce k s) as Hb. destruct (batch k s) as [s' ns]. exact Hb.
+    - cbn. split; [exact I|lia]. }
   destruct (hstep s e) as [s1 o]. destruct H1 as [H1 H1'].
   specialize (IH s1). destruct (hrun s1 es) as [s2 outs]. destruct IH as [H2 H2'].
   unfold accepted_nonces in *. cbn [flat_map]. split.
